@@ -203,7 +203,40 @@ def smt2_script(pc, obl):
 
 
 def cvc5_decide(script, timeout_ms=60000):
-    """re-decide an exported obligation with the cvc5 wheel; returns 'sat'/'unsat'/'unknown'"""
+    """re-decide an exported obligation with the cvc5 wheel in a forked child that is killed after the time limit (cvc5's own limit is not
+    honoured inside long polynomial operations); returns 'sat'/'unsat'/'unknown'/'timeout'"""
+    import select
+    r, w = os.pipe()
+    pid = os.fork()
+    if pid == 0:
+        try:
+            os.close(r)
+            os.write(w, str(_cvc5_decide_inproc(script, timeout_ms)).encode())
+        except BaseException:   # noqa
+            pass
+        finally:
+            os._exit(0)
+    os.close(w)
+    out = "timeout"
+    try:
+        ready, _, _ = select.select([r], [], [], timeout_ms / 1000.0 + 2)
+        if ready:
+            data = os.read(r, 4096).decode()
+            out = data or "unknown"
+    finally:
+        os.close(r)
+        try:
+            os.kill(pid, 9)
+        except ProcessLookupError:
+            pass
+        try:
+            os.waitpid(pid, 0)
+        except ChildProcessError:
+            pass
+    return out
+
+
+def _cvc5_decide_inproc(script, timeout_ms=60000):
     try:
         import cvc5
     except ImportError:
